@@ -66,6 +66,27 @@ def heapMem (grow : Nat → Nat → Nat) : MemOps Heap Slice where
   append := heapAppend grow
   slice := heapSlice
 
+/-! ### the same heap with a flag that records whether any `append` ever wrote in place.
+The flag influences nothing; it lets theorems speak about "executions without an in-place
+append" (C06).  This is the instance the C06 driver runs. -/
+
+structure FHeap where
+  heap : Heap
+  inPlace : Bool
+  deriving Inhabited
+
+/-- does `append(a, b...)` write into `a`'s backing array? -/
+def appendsInPlace (a : Slice) (b : Bytes) : Bool := !b.isEmpty && decide (a.len + b.length ≤ a.cap)
+
+def heapMemF (grow : Nat → Nat → Nat) : MemOps FHeap Slice where
+  len := Slice.len
+  read := fun m s => m.heap.read s
+  fresh := fun m b e => let r := heapFresh m.heap b e; (⟨r.1, m.inPlace⟩, r.2)
+  append := fun m a b =>
+    let r := heapAppend grow m.heap a b
+    (⟨r.1, m.inPlace || appendsInPlace a b⟩, r.2)
+  slice := heapSlice
+
 /-! ### the Go 1.23 runtime growth policy for byte slices (`growslice`, `roundupsize`) -/
 
 def goSizeClasses : List Nat := [0, 8, 16, 24, 32, 48, 64, 80, 96, 112, 128, 144, 160, 176, 192, 208,
